@@ -2663,7 +2663,21 @@ class NetCDFRead(IORead):
             parent_ncvar, geometry_ncvar, interior_ring, parsed_interior_ring
         )
 
+        if cf_compliant:
+            cf_compliant = self._check_geometry_dimensions(
+                parent_ncvar,
+                geometry_ncvar,
+                parsed_node_coordinates,
+                parsed_node_count,
+                parsed_part_node_count,
+                parsed_interior_ring,
+            )
+
         if not cf_compliant:
+            # Forget this container, so that it is parsed again, and
+            # its problems reported, for any other data variable that
+            # references it.
+            del g["geometries"][geometry_ncvar]
             return
 
         part_dimension = None
@@ -3559,7 +3573,7 @@ class NetCDFRead(IORead):
         # ------------------------------------------------------------
         if g["CF>=1.8"]:
             geometry = self.implementation.del_property(f, "geometry", None)
-            if geometry is not None:
+            if geometry:
                 self.implementation.nc_set_geometry_variable(f, geometry)
 
         # Map netCDF dimension names to domain axis identifiers.
@@ -8499,6 +8513,96 @@ class NetCDFRead(IORead):
                     field_ncvar, ncvar, message=message, attribute=attribute
                 )
                 ok = False
+
+        return ok
+
+    def _check_geometry_dimensions(
+        self,
+        field_ncvar,
+        geometry_ncvar,
+        parsed_node_coordinates,
+        parsed_node_count,
+        parsed_part_node_count,
+        parsed_interior_ring,
+    ):
+        """Check the dimensions of the variables of a geometry container.
+
+        All of the named variables must exist in the file. Checks that
+        each one is one-dimensional; that the node coordinate
+        variables span the same dimension; that the geometry
+        dimension (that of the node count variable or, in its absence,
+        of the node coordinate variables) is a dimension of the data
+        variable; and that the interior ring variable spans the same
+        dimension as the part node count variable.
+
+        .. versionadded:: (cfdm) NEXTVERSION
+
+        :Returns:
+
+            `bool`
+
+        """
+        g = self.read_vars
+        variable_dimensions = g["variable_dimensions"]
+
+        ok = True
+
+        def incorrect_dimensions(variable_type, attr, ncvar):
+            self._add_message(
+                field_ncvar,
+                ncvar,
+                message=(variable_type, "spans incorrect dimensions"),
+                attribute={
+                    f"{geometry_ncvar}:{attr}": g["variable_attributes"][
+                        geometry_ncvar
+                    ].get(attr)
+                },
+                dimensions=variable_dimensions[ncvar],
+            )
+
+        node_dimensions = variable_dimensions[parsed_node_coordinates[0]]
+        for ncvar in parsed_node_coordinates:
+            dimensions = variable_dimensions[ncvar]
+            if len(dimensions) != 1 or dimensions != node_dimensions:
+                incorrect_dimensions(
+                    "Node coordinate variable", "node_coordinates", ncvar
+                )
+                ok = False
+
+        if parsed_node_count:
+            geometry_dimensions = variable_dimensions[parsed_node_count[0]]
+            variable_type = "Node count variable"
+            attr = "node_count"
+            ncvar = parsed_node_count[0]
+        else:
+            geometry_dimensions = node_dimensions
+            variable_type = "Node coordinate variable"
+            attr = "node_coordinates"
+            ncvar = parsed_node_coordinates[0]
+
+        if ok and (
+            len(geometry_dimensions) != 1
+            or geometry_dimensions[0] not in variable_dimensions[field_ncvar]
+        ):
+            incorrect_dimensions(variable_type, attr, ncvar)
+            ok = False
+
+        if parsed_part_node_count:
+            part_dimensions = variable_dimensions[parsed_part_node_count[0]]
+            if len(part_dimensions) != 1:
+                incorrect_dimensions(
+                    "Part node count variable",
+                    "part_node_count",
+                    parsed_part_node_count[0],
+                )
+                ok = False
+
+            for ncvar in parsed_interior_ring:
+                if variable_dimensions[ncvar] != part_dimensions:
+                    incorrect_dimensions(
+                        "Interior ring variable", "interior_ring", ncvar
+                    )
+                    ok = False
 
         return ok
 
